@@ -28,10 +28,11 @@ type cliCase struct {
 	Dry, Print, Log int
 	Out             int // 0 unset, 1 same dir, 2 other dir, 3 no extension, 4 multi-dot
 	Spelling        int // 0 relative, 1 absolute, 2 nested from parent, 3 GOFILE only, 4 GOFILE + argument, 5 ./relative, 6 with ..
+	Prior           int // 0 nothing at the output path, 1 a longer file from an earlier generation
 }
 
 func (c cliCase) id() string {
-	return fmt.Sprintf("cli_%d_%d%d%d_%d_%d", c.Input, c.Dry, c.Print, c.Log, c.Out, c.Spelling)
+	return fmt.Sprintf("cli_%d_%d%d%d_%d_%d_%d", c.Input, c.Dry, c.Print, c.Log, c.Out, c.Spelling, c.Prior)
 }
 
 // cliPlan is what the reference model of the documented contract predicts.
@@ -152,6 +153,10 @@ func (e *Env) cliRun(base string, c cliCase) (cliPlan, cliObs, error) {
 	}
 	defer os.RemoveAll(root)
 	pl := cliReference(root, c)
+	if c.Prior == 1 {
+		_ = os.MkdirAll(filepath.Dir(pl.OutPath), 0o755)
+		_ = os.WriteFile(pl.OutPath, []byte("package p\n\n"+strings.Repeat("// tail of an earlier, longer generation\n", 300)), 0o644)
+	}
 	before := histfs.Take(root, nil)
 	res := e.Runner.Run(pl.Cwd, pl.Args, pl.Env...)
 	after := histfs.Take(root, nil)
@@ -186,14 +191,17 @@ func init() {
 								if !th && in > 0 && (out > 1 || sp > 1) {
 									continue // quick: the other inputs get the flag cube on the two basic spellings
 								}
-								cases = append(cases, cliCase{in, dry, pr, lg, out, sp})
+								cases = append(cases, cliCase{in, dry, pr, lg, out, sp, 0})
+								if sp <= 1 && out <= 1 {
+									cases = append(cases, cliCase{in, dry, pr, lg, out, sp, 1})
+								}
 							}
 						}
 					}
 				}
 			}
 		}
-		e.Rep.Rule("complete product -dry x -print x -log x -out{unset, same dir, other dir, no extension, multi-dot} x input spelling{relative, absolute, nested from the parent dir, GOFILE only, GOFILE+argument, ./relative, with ..} x accepted inputs; " +
+		e.Rep.Rule("complete product -dry x -print x -log x -out{unset, same dir, other dir, no extension, multi-dot} x input spelling{relative, absolute, nested from the parent dir, GOFILE only, GOFILE+argument, ./relative, with ..} x accepted inputs x prior content of the output path {none, a longer earlier generation}; " +
 			"oracle: reference model of the documented contract (output path, file written iff not -dry, stdout == code iff -print, log at <output minus ext>.log, GOFILE fallback, argument beats GOFILE) and O-diff: " +
 			"code and exit status equal those of the plain run of the same input; non-trivial = run with >= 2 of the flags set")
 		// reference code per input: the plain run
@@ -238,7 +246,7 @@ func init() {
 					} else if ob.Code != want {
 						add("output-differs", "bytes at the output path differ from the plain run of the same input")
 					}
-				} else if ob.HasOut {
+				} else if ob.HasOut && c.Prior == 0 {
 					add("dry-wrote", "-dry wrote the output file")
 				}
 				if pl.Stdout {
